@@ -532,7 +532,9 @@ func (w *World) doResume(c *ContactState, rec *SessionRec, spec *ResumeSpec) {
 	}
 	before := rec.JSON
 
-	if w.Cfg.Fork && !w.stopped {
+	// (in the long conversation of a marathon world the enumeration is done at the first waits and then at every 20th:
+	// the states in between differ in counters only, and ~90 futures per wait x 150 waits would crowd out other worlds)
+	if w.Cfg.Fork && !w.stopped && (!w.Sc.Marathon || len(w.Calls) < 8 || len(w.Calls)%20 == 0) {
 		w.forkAtWait(c, rec, s, sa, restored)
 		if w.stopped {
 			return
